@@ -3,7 +3,7 @@ import DustVerif.Driver.Util
 /-! Line-protocol driver of the engine `plist` (same ops and canonical output as harness/src/bin/plist.rs):
       enc <kind> <field=value ...> [fix=..]  -> hex of intoBytes
       dec <kind> <hex> [fix=..]              -> `ok field=value ...` | `err:<kind>` | PANIC | ALLOC-LIMIT
-    `fix=11,13` names the repair patches the tree under test carries (default: both). -/
+    `fix=11,13,p1` names the repairs the tree under test carries (11 = D11, 13 = D13, p1 = D-plist-1; default: all). -/
 namespace DustVerif.Driver.PlistEngine
 open DustVerif.Plist DustVerif.Driver
 
@@ -268,7 +268,7 @@ def cfgOf (m : List (String × String)) : Cfg :=
   | none => Cfg.fixed
   | some s =>
     let l := s.splitOn ","
-    { fixD11 := l.contains "11", fixD13 := l.contains "13" }
+    { fixD11 := l.contains "11", fixD13 := l.contains "13", fixHdr := l.contains "p1" }
 
 /-- the record as a list (pid, value); `none` if a given value does not parse or is outside the value domain -/
 def buildRec (tf : List TField) (m : List (String × String)) : Option (List (Nat × FVal)) :=
